@@ -33,6 +33,9 @@ def run(prog, R, tier="quick", only_rule=None):
     # invisible to every snapshot taken earlier: readers pin one SuperVersion (also the blob side of a scan)
     from rules.props import c02
     c02.c02d(prog, R, rid="C14.e")
+    # ingested blobs carry seqno 0 in their frames: relocation must not rely on the frame seqno order (finding F12)
+    from rules.props import c08
+    c08.c08j(prog, R, rid="C14.f")
 
 
 def finishers(prog):
